@@ -23,7 +23,7 @@ def _string(rng, n=None, maxlen=12, lossless=False):
         out = [rng.choice(b"abcdefgXYZ 0189_-OP}\"!") for _ in range(n)]       # (O P } \" ! sit on the boundaries of the encoded-string inversion)
         # y-diaeresis is lossy only "where sanitised or padded" (C01's quantifier): it is generated, and the MODEL says whether the
         # object it lands in still belongs to the quantifier (mode givenrt)
-        if n and rng.random() < 0.3:
+        if n and lossless != "plain" and rng.random() < 0.3:
             out[rng.randrange(n)] = 255
             if rng.random() < 0.3:
                 out[rng.randrange(n)] = 255
@@ -58,10 +58,10 @@ class Gen:
         if t in ("string", "encoded_string"):
             if i["tag"] == "field" and i["len"]["k"] == "lit":
                 n = i["len"]["n"]
-                return _string(rng, rng.randrange(0, n + 1) if i["padded"] else n, lossless=self.lossless)
+                return _string(rng, rng.randrange(0, n + 1) if i["padded"] else n, lossless=("plain" if self.lossless and self.boundary else self.lossless))
             if count is not None:
-                return _string(rng, count, lossless=self.lossless)
-            return _string(rng, lossless=self.lossless)
+                return _string(rng, count, lossless=("plain" if self.lossless and self.boundary else self.lossless))
+            return _string(rng, lossless=("plain" if self.lossless and self.boundary else self.lossless))
         if t == "blob":
             return [rng.choice([0, 1, 254, 255, rng.randrange(256)]) for _ in range(rng.randrange(0, 6))]
         ty = self.types[t]
@@ -88,7 +88,7 @@ class Gen:
                 if i["type"] in ("byte", "char") and (self.boundary or rng.random() < 0.05) and 0 < lim <= 300:
                     lens[i["name"]] = rng.choice([lim, lim - 1, lim - 2])           # as many as the length field can carry
                 elif i["type"] in ("short", "three", "int") and self.boundary:
-                    lens[i["name"]] = max(i["offset"], 0) + rng.choice([256, 257, 258, 259, 300])     # beyond one byte (and beyond the interned small integers)
+                    lens[i["name"]] = max(i["offset"], 0) + rng.choice([258, 259, 300])     # beyond one byte (and beyond the interned small integers)
                 else:
                     lens[i["name"]] = max(i["offset"], 0) + rng.randrange(0, min(7, max(1, lim - max(i["offset"], 0) + 1)))
             elif t == "field" and i["name"]:
